@@ -78,3 +78,20 @@ package bindingcontext
 //@   loop 1
 //@     invariant 0 <= iter() && iter() <= len(contexts) && fresh(res) && len(res) == len(contexts)
 //@     invariant forall(i, 0, iter(), res[i] != nil && has(res[i], "binding") && Str(res[i]["binding"], contexts[i].Binding))
+
+// C12: the rendering of a list for the binding-context file. Ghost log of the list rendered last and
+// of the bytes it gave (the hook package proves that exactly these bytes are written for exactly the
+// list of the execution). The bytes are storage of their own: nothing another execution renders or
+// recycles can change them before they are written (json.MarshalIndent returns a new slice: assumed).
+//@ ghost lastJsonIn BindingContextList
+//@ ghost lastJsonOut []byte
+//@ func (BindingContextList).Json
+//@   prop C12
+//@   modifies lastJsonIn, lastJsonOut
+//@   ghostset lastJsonIn := b
+//@   ghostset lastJsonOut := result0
+//@   ensures [own-storage] result1 == nil ==> fresh(result0)
+//@ package encoding/json
+//@ trusted func MarshalIndent
+//@   modifies nothing
+//@   ensures result1 == nil ==> fresh(result0)
